@@ -41,6 +41,11 @@ func (e *Engine) loopHeader(f *frame, li *loopInfo, b *ssa.BasicBlock, phis []*s
 		t := e.evalClause(f, cl, st, nil, b)
 		e.oblige(st, "inv-init", fmt.Sprintf("loop%d.%s", li.ordinal, clauseLabel(cl, i)), t, posOfBlock(e, b), "invariant holds on loop entry: "+cl.Text)
 	}
+	// writers listed as wstream targets stay append-only across the loop (automatic invariant)
+	for k, key := range e.wstreamKeys {
+		cond := e.appendOnly(e.ghostGet(f.topEntry(), gCount, key), e.ghostGet(f.topEntry(), gWData, key), e.ghostGet(st, gCount, key), e.ghostGet(st, gWData, key))
+		e.oblige(st, "auto-inv-init", fmt.Sprintf("loop%d.appendonly%d", li.ordinal, k), cond, posOfBlock(e, b), "writer is append-only on loop entry")
+	}
 	// havoc
 	ms := li.mods
 	e.havocFamilies(st, ms.list())
@@ -64,6 +69,19 @@ func (e *Engine) loopHeader(f *frame, li *loopInfo, b *ssa.BasicBlock, phis []*s
 	}
 	for _, a := range autos {
 		e.assume(st, a.build(phiVals))
+	}
+	for _, key := range e.wstreamKeys {
+		if !ms.all && !ms.fams["G<stream>"] {
+			break // the loop does not touch any stream
+		}
+		// after the havoc: contents = entry contents with an unknown chunk appended
+		c0 := e.ghostGet(f.topEntry(), gCount, key)
+		w0 := e.ghostGet(f.topEntry(), gWData, key)
+		newCnt := c.Fresh("loop.count", smt.BV(64))
+		chunk := c.Fresh("loop.chunk", bytesInner)
+		e.ghostSet(st, gCount, key, newCnt)
+		e.ghostSet(st, gWData, key, c.App("arr.splice."+sortTag(smt.BV(8)), bytesInner, w0, c0, chunk, c.BVLit64(0, 64), bvsub(c, newCnt, c0)))
+		e.assume(st, bvle(c, c0, newCnt))
 	}
 	for _, cl := range written {
 		e.assume(st, e.evalClause(f, cl, st, nil, b))
@@ -118,6 +136,10 @@ func (e *Engine) loopBackEdge(f *frame, li *loopInfo, latch, header *ssa.BasicBl
 	}
 	for _, a := range f.autos[header] {
 		e.oblige(bs, "auto-inv-step", fmt.Sprintf("loop%d.%s", li.ordinal, a.label), a.build(next), posOfBlock(e, latch), "auto invariant preserved")
+	}
+	for k, key := range e.wstreamKeys {
+		cond := e.appendOnly(e.ghostGet(f.topEntry(), gCount, key), e.ghostGet(f.topEntry(), gWData, key), e.ghostGet(bs, gCount, key), e.ghostGet(bs, gWData, key))
+		e.oblige(bs, "auto-inv-step", fmt.Sprintf("loop%d.appendonly%d", li.ordinal, k), cond, posOfBlock(e, latch), "writer stays append-only across an iteration")
 	}
 	if f.ct != nil {
 		for i, cl := range f.ct.Invariants[li.ordinal] {
